@@ -2,7 +2,7 @@
 from common_props import COMMON_TRUSTED
 
 CFG = {
-    "engines": [["cutbegin", 3, 12], ["cut", 4, 12], ["stallwrite", 3, 12]],
+    "engines": [["cutbegin", 3, 12], ["cut", 4, 12], ["stallwrite", 3, 12], ["errq", 150, 600]],
     "engine_timeout": 1500,
     "rule": "cut: a real client channel calls (300 ms deadline) through a loopback proxy that, at byte offset n of the request or "
             "of the response stream, closes both sockets / half-closes towards the receiver / stalls that direction / closes "
@@ -42,7 +42,21 @@ CFG = {
             "Oracle: EVERY call (in flight, sentinel, new) is back by its deadline (500-900 ms) + 400 ms with an error or exactly the expected "
             "response, every handler's reads/writes return by its context's deadline + 400 ms; a failing scenario alarms only when it "
             "fails 4 of 4 runs. Model = Model/CutBegin.v run_c05cutbegin: paths over the generated wait-site AND lock-site tables "
-            "(a lock acquisition passes at once iff the site is in the table and every lock program passes the checker).",
+            "(a lock acquisition passes at once iff the site is in the table and every lock program passes the checker). "
+            "errq (sub c05errq): ERROR NOTIFICATION VS QUEUED FRAMES: a real client channel calls a specification-built raw peer through a "
+            "ChannelOptions.Dialer socket; the peer answers with 4-6 frames (checksum type none / crc32 / crc32c; the long argument is arg3 or arg2) "
+            "ONE FRAME AT A TIME under harness control, the caller reads the response FRAME BY FRAME under harness control (reads of exactly the bytes "
+            "that make the fragment reader fetch one more frame), and a connection error is raised from OUTSIDE the connection reader while frames "
+            "still arrive: a write failure injected through the Dialer socket (its Close held back), a failed ping send on a stalled socket "
+            "(ErrSendBufferFull), a protocol-error frame from the peer between two response frames, or none. A scenario is a word over {A = next frame "
+            "written, T = receiver takes a frame, E = the error}; after every letter the harness waits until connection reader and receiver have returned "
+            "or are parked in their select (one stop-the-world goroutine snapshot + the schedule points mex.forward.afterLookup / conn.readFrames.handled, "
+            "never a timing guess); at the end the peer writes the rest and the receiver reads on frame by frame. 17 fixed words x 3 error kinds x 2 checksum "
+            "types + 8 error-free + 150 (quick) / 600 random words; thorough adds EVERY word of length <= 7 with one E over 4 frames x 3 kinds. Model = Model/ErrQ.v "
+            "run_c05errq (Model/Mex.v's step, cap(recvCh) = the regenerated mexChannelBufferSize, composed with Model/Cut.v's parser + reader on the frames' bytes): result of "
+            "every take (frame / the latched connection error / other error) and the final outcome with the argument bytes. Oracle (statement): every byte handed out "
+            "continues the argument the peer sent; success only with exactly the bytes sent; control back by the 1.5 s deadline + 400 ms; no panic; a verdict counts only "
+            "when it reproduces 3 of 3 times.",
     "trusted_base": COMMON_TRUSTED + [
         "regenerated from source on every run (go2v/waitsites.go -> Gen/GenWaitSites.v): the table of blocking statements of the "
         "outbound call path (closure of the call API under the static call graph: select without default, bare channel "
@@ -73,6 +87,12 @@ CFG = {
         "init_deadline); hints (trusted): time.Now() => now, ctx.Deadline() => (ctx_has, ctx_deadline), the result is the argument of "
         "c.SetDeadline. Channel.Connect's context.WithTimeout is modelled by hand (Model/Budget.v connect_ctx) and tied by the "
         "c05budget correspondence; the semantics of context.WithTimeout itself is the Go standard library's",
+        "regenerated from source on every run (go2v/chanprog.go -> Gen/GenMexProg.v): messageExchange.forwardPeerFrame and messageExchange.recvPeerFrame "
+        "of mex.go as CHANNEL PROGRAMS (if-tests, select with/without default, returns, frameDropped.Store) -- proved (C05_exchange_steps_generated) to give exactly "
+        "the forwarder's and receiver's steps of the exchange model Model/Mex.v. Trusted: the hint tables of chanprog.go (Go source text of a condition / comm clause / "
+        "result / statement => constructor, printed next to each definition), the meaning given to the constructors in Model/MexProg.v (one atomic action = the run up to the "
+        "parking select, resp. one communication and its arm; ctx.Err() != nil iff ctx.Done() is closed; errCh.c closed iff an error was notified), and the rest of Model/Mex.v "
+        "(stopExchanges, newExchange, shutdown: hand-written, tied by C04's mex engine and by engine errq)",
         "the fragment reader model on hostile fragment lists (premise of C05_one_outcome / C05_success_is_denotation) is tied by the "
         "hostile sub-engine of this check (structured fragments that the real parser accepts) and by C01/C03's engines",
     ],
